@@ -16,6 +16,16 @@ theorem blob_roundtrip (bs : Bytes) : (newBlob bs).read = bs := by
   · simp [Blob.read]
   · simp only [Blob.read, writeParts_flatten, List.take_append_drop]
 
+/-- the stored form is injective: two different payloads are never stored as the same blob -/
+theorem blob_injective (a b : Bytes) (h : newBlob a = newBlob b) : a = b := by
+  rw [← blob_roundtrip a, ← blob_roundtrip b, h]
+
+/-- nothing is padded or dropped: the bytes held inline and in the parts add up to the payload length -/
+theorem blob_total_length (bs : Bytes) :
+    (newBlob bs).inlined.length + ((newBlob bs).parts.map List.length).sum = bs.length := by
+  have h := congrArg List.length (blob_roundtrip bs)
+  simpa [Blob.read, List.length_flatten] using h
+
 /-- every entity stays within the datastore field limit -/
 theorem part_sizes (bs : Bytes) :
     (newBlob bs).inlined.length ≤ store_fieldByteLimit ∧ ∀ p ∈ (newBlob bs).parts, p.length ≤ store_fieldByteLimit := by
